@@ -149,10 +149,58 @@ func (fi *FnInfo) edgeAtoms(pred, succ *ssa.BasicBlock) []Atom {
 		return nil
 	}
 	c := fi.T(iff.Cond)
-	if pred.Succs[0] == succ {
-		return condAtoms(c, true)
+	pol := pred.Succs[0] == succ
+	out := condAtoms(c, pol)
+	// a condition that was computed into a variable first (`bad := a || b; if bad {…}`) is a phi of
+	// booleans: knowing its value singles out the edges it can have come from
+	out = append(out, fi.boolPhiFacts(iff.Cond, pol, 0)...)
+	return out
+}
+
+// boolPhiFacts: v (a boolean phi, possibly negated) is known to equal `val`. Incoming edges whose
+// value is the opposite constant are infeasible; if exactly one edge remains, the facts of that
+// edge's path hold and so does (edge value == val).
+func (fi *FnInfo) boolPhiFacts(v ssa.Value, val bool, depth int) []Atom {
+	if depth > 3 {
+		return nil
 	}
-	return condAtoms(c, false)
+	if u, ok := v.(*ssa.UnOp); ok && u.Op == token.NOT {
+		return fi.boolPhiFacts(u.X, !val, depth+1)
+	}
+	ph, ok := v.(*ssa.Phi)
+	if !ok {
+		return nil
+	}
+	if bt, isB := ph.Type().Underlying().(*types.Basic); !isB || bt.Kind() != types.Bool {
+		return nil
+	}
+	feasible := -1
+	n := 0
+	for i, e := range ph.Edges {
+		if cst, isC := e.(*ssa.Const); isC && cst.Value != nil && cst.Value.Kind() == constant.Bool {
+			if constant.BoolVal(cst.Value) != val {
+				continue
+			}
+		}
+		feasible = i
+		n++
+	}
+	if n != 1 {
+		return nil
+	}
+	pred := ph.Block().Preds[feasible]
+	if ph.Block().Dominates(pred) {
+		return nil // a back edge: the path facts belong to an earlier iteration
+	}
+	var out []Atom
+	out = append(out, fi.blockFacts(pred)...)
+	out = append(out, fi.edgeAtoms(pred, ph.Block())...)
+	e := ph.Edges[feasible]
+	if _, isC := e.(*ssa.Const); !isC {
+		out = append(out, condAtoms(fi.T(e), val)...)
+		out = append(out, fi.boolPhiFacts(e, val, depth+1)...)
+	}
+	return out
 }
 
 // blockFacts: atoms established by dominating If-edges on entry to block b.
